@@ -57,6 +57,12 @@ fn real_main(args: &[String], props: &[&dyn Prop]) -> i32 {
             }
             runner::replay_main(props, &args[1])
         }
+        "shrinkjob" => {
+            if args.len() < 3 {
+                return usage();
+            }
+            runner::shrinkjob_main(props, &args[1], &args[2])
+        }
         "gentest" => {
             // generator health: histogram of assemble / execution outcomes
             let n: u64 = args.get(1).and_then(|s| s.parse().ok()).unwrap_or(200);
